@@ -228,6 +228,15 @@ func (m *Machine) stmt(fr *frame, s ast.Stmt) {
 			m.caseBody(fr, def)
 		}
 	case *ast.AssignStmt:
+		if len(s.Lhs) == 2 && len(s.Rhs) == 1 {
+			if ix, ok := unparen(s.Rhs[0]).(*ast.IndexExpr); ok {
+				if v, found, ok := m.tableLookup(fr, ix); ok {
+					m.assign(fr, s.Lhs[0], v, s)
+					m.assign(fr, s.Lhs[1], val{k: vBool, b: found}, s)
+					return
+				}
+			}
+		}
 		if len(s.Lhs) != len(s.Rhs) {
 			// multi-value call: evaluate for effects, results unknown
 			for _, r := range s.Rhs {
@@ -377,14 +386,8 @@ func (m *Machine) assign(fr *frame, lhs ast.Expr, v val, at ast.Node) {
 		}
 		// untracked field of the object: record as an effect
 		desc := "set:" + f.Name()
-		if as, ok := at.(*ast.AssignStmt); ok && len(as.Rhs) == 1 {
-			if call, ok := as.Rhs[0].(*ast.CallExpr); ok {
-				if id, ok := call.Fun.(*ast.Ident); ok && id.Name == "append" && len(call.Args) >= 2 {
-					if f2, ok := m.fieldOfObj(fr, call.Args[0]); ok && f2 == f {
-						desc = "append:" + f.Name()
-					}
-				}
-			}
+		if a, ok := m.appendToSelf(fr, lhs, at); ok {
+			desc = "append:" + f.Name() + a
 		}
 		m.act("%s", desc)
 		return
@@ -392,10 +395,41 @@ func (m *Machine) assign(fr *frame, lhs ast.Expr, v val, at ast.Node) {
 	// nested field of object (p.dcs.Data = ...) or anything else: record root if it is the object
 	if sel, ok := lhs.(*ast.SelectorExpr); ok {
 		if f, ok := m.fieldOfObj(fr, sel.X); ok {
+			if a, ok := m.appendToSelf(fr, lhs, at); ok {
+				m.act("append:%s.%s%s", f.Name(), sel.Sel.Name, a)
+				return
+			}
 			m.act("set:%s.%s", f.Name(), sel.Sel.Name)
 			return
 		}
 	}
+}
+
+// appendToSelf: the assignment `lhs = append(lhs, v...)`; returns the appended values as "(v1,v2)".
+func (m *Machine) appendToSelf(fr *frame, lhs ast.Expr, at ast.Node) (string, bool) {
+	as, ok := at.(*ast.AssignStmt)
+	if !ok || len(as.Rhs) != 1 || len(as.Lhs) != 1 {
+		return "", false
+	}
+	call, ok := as.Rhs[0].(*ast.CallExpr)
+	if !ok || len(call.Args) < 2 {
+		return "", false
+	}
+	id, ok := call.Fun.(*ast.Ident)
+	if !ok || id.Name != "append" {
+		return "", false
+	}
+	if _, isB := m.info.Uses[id].(*types.Builtin); !isB {
+		return "", false
+	}
+	if types.ExprString(unparen(call.Args[0])) != types.ExprString(unparen(lhs)) {
+		return "", false
+	}
+	var vs []string
+	for _, a := range call.Args[1:] {
+		vs = append(vs, m.expr(fr, a).String())
+	}
+	return "(" + strings.Join(vs, ",") + ")", true
 }
 
 // exprFor evaluates rhs knowing the lhs it is stored to (used to recognise append-to-self).
@@ -529,8 +563,69 @@ func (m *Machine) expr(fr *frame, e ast.Expr) val {
 		return m.call(fr, e)
 	case *ast.FuncLit:
 		return val{}
+	case *ast.IndexExpr:
+		if v, _, ok := m.tableLookup(fr, e); ok {
+			return v
+		}
+		return val{}
 	}
 	return val{}
+}
+
+// tableLookup evaluates T[k] where T is a package-level variable that is only ever initialised (never
+// stored to) with a map, array or slice literal of constant keys, and k evaluates to an integer.
+// ok=false: not such a table. found=false: the key is absent (v is the element type's zero value).
+func (m *Machine) tableLookup(fr *frame, ix *ast.IndexExpr) (v val, found bool, ok bool) {
+	id, isId := unparen(ix.X).(*ast.Ident)
+	if !isId || m.prog == nil {
+		return val{}, false, false
+	}
+	obj, _ := m.info.Uses[id].(*types.Var)
+	if obj == nil || obj.Pkg() == nil || obj.Parent() != obj.Pkg().Scope() {
+		return val{}, false, false
+	}
+	lit := m.prog.ReadOnlyTable(obj)
+	if lit == nil {
+		return val{}, false, false
+	}
+	k := m.expr(fr, ix.Index)
+	if k.k != vInt {
+		return val{}, false, false
+	}
+	var elem types.Type
+	switch u := obj.Type().Underlying().(type) {
+	case *types.Map:
+		elem = u.Elem()
+	case *types.Slice:
+		elem = u.Elem()
+	case *types.Array:
+		elem = u.Elem()
+	default:
+		return val{}, false, false
+	}
+	_, isMap := obj.Type().Underlying().(*types.Map)
+	pos := int64(0)
+	for _, el := range lit.Elts {
+		value := el
+		if kv, isKV := el.(*ast.KeyValueExpr); isKV {
+			kvv := m.expr(fr, kv.Key)
+			if kvv.k != vInt {
+				return val{}, false, false
+			}
+			pos = kvv.i
+			value = kv.Value
+		} else if isMap {
+			return val{}, false, false
+		}
+		if pos == k.i {
+			return m.expr(fr, value), true, true
+		}
+		pos++
+	}
+	if !isMap {
+		return val{}, false, false // out of range / unset array slot: not modelled
+	}
+	return m.zero(elem), false, true
 }
 
 func (m *Machine) call(fr *frame, call *ast.CallExpr) val {
